@@ -735,7 +735,7 @@ def check(prop, tier, seed):
     import repo_tests
     rejects += repo_tests.check(run)
     # the whole library end to end over TCP (acceptor + initiator + two real sessions + a faulty transport)
-    if prop in ("C06", "C07", "C08", "C09"):
+    if prop in ("C06", "C07", "C08", "C09", "C14"):
         import stack_checks
         rejects += stack_checks.check(run, quick, seed)
         run.assumptions_extra = [stack_checks.ASSUMPTION]
